@@ -98,6 +98,8 @@ func h14Make(variant, fv int) *h14Setup {
 		row = ".name,/s" // a row key whose trailing field is missing for names without the sub-name
 	case 5:
 		table, row = "a", ".name" // residue of several fields: b, c and .fullname
+	case 6:
+		table = "a" // the residue is the rest of the file configuration alone (b, c): empty until such a key appears
 	}
 	filter, err := benchproc.NewFilter(h14Filters[fv])
 	if err != nil {
@@ -151,11 +153,11 @@ func h14SameCell(variant int, r1 h14Res, m1 int, r2 h14Res, m2 int) bool {
 		return h14Units[r.u1]
 	}
 	same := u(r1, m1) == u(r2, m2)
-	if variant != 5 {
+	if variant != 5 && variant != 6 {
 		same = vndAnd(same, r1.c == r2.c)
 	}
 	same = vndAnd(same, r1.a == r2.a) // table key (.config, or a alone) or column key (variant 2)
-	if variant != 3 && variant != 5 {
+	if variant != 3 && variant != 5 && variant != 6 {
 		same = vndAnd(same, r1.b == r2.b)
 	}
 	same = vndAnd(same, r1.nm == r2.nm)
@@ -301,13 +303,13 @@ func H14Cells() {
 					vndReach("h14:residue-warning")
 					vndAssert(warn == "benchmarks vary in .fullname", "residue-warning-names-exactly-the-differing-keys")
 				}
-			} else if s.variant == 5 {
+			} else if s.variant == 5 || s.variant == 6 {
 				// table by a, rows by .name: b, c and the sub-name are in the residue
 				want := ""
 				for _, kv := range []struct {
 					vary bool
 					name string
-				}{{varyS, ".fullname"}, {varyB, "b"}, {varyC, "c"}} { // sorted by name
+				}{{varyS && s.variant == 5, ".fullname"}, {varyB, "b"}, {varyC, "c"}} { // sorted by name
 					if kv.vary {
 						if want != "" {
 							want += ","
